@@ -69,6 +69,16 @@ type lfLeak struct {
 	Mutex string `json:"mutex"`
 }
 
+// lfSection: a guarded access together with the critical section (acquisition number within the
+// function) it happens in; two accesses with the same non-zero number are not separated by an unlock.
+type lfSection struct {
+	Func   string
+	Region int
+	Field  string
+	Write  bool
+	Line   int
+}
+
 type stubImporter struct{ pkgs map[string]*types.Package }
 
 func (s *stubImporter) Import(path string) (*types.Package, error) {
@@ -89,6 +99,7 @@ type lfPkg struct {
 	mutex  map[*types.Var]string       // configured mutex fields -> "Struct.mutex"
 	acc    []lfAccess
 	leaks  []lfLeak
+	sects  []lfSection
 	untr   int
 	notes  []string
 }
@@ -104,6 +115,7 @@ func lockfacts(repo, out string) error {
 	}
 	var acc []lfAccess
 	var leaks []lfLeak
+	var sects []lfSection
 	untr := 0
 	var notes []string
 	for _, dir := range order {
@@ -113,6 +125,7 @@ func lockfacts(repo, out string) error {
 		}
 		acc = append(acc, p.acc...)
 		leaks = append(leaks, p.leaks...)
+		sects = append(sects, p.sects...)
 		untr += p.untr
 		notes = append(notes, p.notes...)
 	}
@@ -158,6 +171,15 @@ func lockfacts(repo, out string) error {
 			sb.WriteString(";\n")
 		}
 		fmt.Fprintf(&sb, "  mkL %q %d %q %q", l.File, l.Line, l.Func, l.Mutex)
+	}
+	sb.WriteString("\n].\n\n")
+	sb.WriteString("(* guarded accesses with the number of the critical section (lock acquisition, in statement order\n   within the function) they happen in; 0 = merged from different acquisitions *)\n")
+	sb.WriteString("Definition sections : list section_fact := [\n")
+	for i, x := range sects {
+		if i > 0 {
+			sb.WriteString(";\n")
+		}
+		fmt.Fprintf(&sb, "  mkSF %q %d %q %s %d", x.Func, x.Region, x.Field, map[bool]string{true: "true", false: "false"}[x.Write], x.Line)
 	}
 	sb.WriteString("\n].\n\n")
 	fmt.Fprintf(&sb, "(* functions touching a configured field or mutex whose control flow the walk does not model *)\nDefinition untranslated : N := %d.\n", untr)
@@ -252,7 +274,17 @@ func recvTypeName(e ast.Expr) string {
 
 // ---------- per function ----------
 
-type held map[string]byte // "base|Struct.mutex" -> 'R' / 'W'
+// held: "base|Struct.mutex" -> critical-section number << 1 | (1 if write-locked).
+// Every Lock/RLock statement of a function opens a new critical section (numbered from 1 in statement
+// order); 0 = the branches that reach this point hold the mutex from different acquisitions.
+type held map[string]int
+
+func lockMode(v int) byte {
+	if v&1 == 1 {
+		return 'W'
+	}
+	return 'R'
+}
 
 func (h held) clone() held {
 	c := held{}
@@ -278,11 +310,11 @@ func meet(a, b held) held {
 	c := held{}
 	for k, v := range a {
 		if w, ok := b[k]; ok {
-			if v == 'R' || w == 'R' {
-				c[k] = 'R'
-			} else {
-				c[k] = 'W'
+			region := v >> 1
+			if w>>1 != region {
+				region = 0
 			}
+			c[k] = region<<1 | (v & w & 1)
 		}
 	}
 	return c
@@ -298,6 +330,8 @@ type fnWalk struct {
 	bad      string // first unmodelled shape
 	acc      []lfAccess
 	leaks    []lfLeak
+	sects    []lfSection
+	nregion  int
 	touched  bool
 	lits     []*ast.FuncLit
 	loops    []held // lockset at the entry of the enclosing loops (innermost last)
@@ -323,6 +357,9 @@ func (p *lfPkg) function(file, name string, body *ast.BlockStmt) {
 	}
 	p.acc = append(p.acc, w.acc...)
 	p.leaks = append(p.leaks, w.leaks...)
+	if w.bad == "" {
+		p.sects = append(p.sects, w.sects...)
+	}
 	// function literals run later / elsewhere: analysed on their own with the empty lockset
 	for i, l := range w.lits {
 		p.function(file, fmt.Sprintf("%s.func%d", name, i+1), l.Body)
@@ -422,9 +459,11 @@ func (w *fnWalk) stmt(s ast.Stmt, h held) (held, bool) {
 			h = h.clone()
 			switch op {
 			case "Lock":
-				h[key] = 'W'
+				w.nregion++
+				h[key] = w.nregion<<1 | 1
 			case "RLock":
-				h[key] = 'R'
+				w.nregion++
+				h[key] = w.nregion << 1
 			case "Unlock", "RUnlock":
 				if _, has := h[key]; !has {
 					w.setBad("unlock of a mutex not known to be held", t.Pos())
@@ -683,7 +722,11 @@ func (w *fnWalk) record(gf *guardedFieldAt, kind string, pos token.Pos, h held) 
 	prefix := gf.base + "|"
 	for k, v := range h {
 		if strings.HasPrefix(k, prefix) {
-			hs = append(hs, k[len(prefix):]+":"+string(v))
+			hs = append(hs, k[len(prefix):]+":"+string(lockMode(v)))
+			if k[len(prefix):] == gf.g.Struct+"."+gf.g.Mutex {
+				w.sects = append(w.sects, lfSection{Func: w.name, Region: v >> 1, Field: gf.g.Struct + "." + gf.g.Field,
+					Write: kind == "KWrite" || kind == "KAliasWrite", Line: w.line(pos)})
+			}
 		}
 	}
 	sort.Strings(hs)
